@@ -125,6 +125,28 @@ fn field<'a>(rep: &'a str, name: &str) -> &'a str {
 }
 
 fn gen_progs(r: &mut Rng, thorough: bool) -> Vec<Vec<Cmd>> {
+    if r.chance(1, 4) {
+        // hot-key programs: single-item inserts and removes of one key against snapshot readers of that key,
+        // so that every snapshot opened inside a writer's window reads something the writer is changing
+        let (hk, hkey) = (r.below(2) as usize, b"k1".to_vec());
+        let mut progs = vec![];
+        let mut ctr = 100u8;
+        for _ in 0..r.range(1, 2) {
+            let mut p = vec![];
+            for i in 0..r.range(2, if thorough { 5 } else { 4 }) { ctr += 1; p.push(Cmd::Write(vec![(hk, hkey.clone(), if i % 2 == 0 || r.chance(1, 4) { Some(vec![ctr]) } else { None })])); }
+            progs.push(p);
+        }
+        for _ in 0..r.range(1, 2) {
+            let mut p = vec![];
+            for _ in 0..r.range(1, 3) {
+                p.push(Cmd::Snap);
+                for _ in 0..r.range(2, 3) { p.push(Cmd::Read(hk, hkey.clone())); }
+                p.push(Cmd::Close);
+            }
+            progs.push(p);
+        }
+        return progs;
+    }
     let keys: Vec<Vec<u8>> = vec![b"k0".to_vec(), b"k1".to_vec(), b"k2".to_vec()];
     let nw = r.range(1, 3);
     let nr = r.range(1, 2);
@@ -138,7 +160,7 @@ fn gen_progs(r: &mut Rng, thorough: bool) -> Vec<Vec<Cmd>> {
                 0..=5 => {
                     let m = if r.chance(1, 3) { 1 } else { r.range(2, 3) };
                     let mut items = vec![];
-                    for _ in 0..m { ctr += 1; items.push((r.below(2) as usize, r.pick(&keys).clone(), if r.chance(5, 6) { Some(vec![ctr]) } else { None })); }
+                    for _ in 0..m { ctr += 1; items.push((r.below(2) as usize, r.pick(&keys).clone(), if r.chance(if m == 1 { 3 } else { 5 }, if m == 1 { 5 } else { 6 }) { Some(vec![ctr]) } else { None })); }
                     // a batch names each key of a keyspace at most once (same-seqno duplicates are outside the model's scope)
                     let mut seen = std::collections::HashSet::new();
                     items.retain(|(k, key, _)| seen.insert((*k, key.clone())));
@@ -244,6 +266,7 @@ fn run_case(seed: u64, lean: &mut Lean, hist: &mut BTreeMap<String, u64>, sample
         } } }
     }} }
 
+    let mut burst: Option<(usize, u32)> = None; // a reader picked inside a writer's window keeps running for a few steps
     'outer: while !aborted {
         // candidates: agents that are not done
         let live: Vec<usize> = (0..n).filter(|&i| at[i] != "done" && Some(i) != pending).collect();
@@ -289,7 +312,13 @@ fn run_case(seed: u64, lean: &mut Lean, hist: &mut BTreeMap<String, u64>, sample
             }
             continue;
         }
-        let t = *r.pick(&live);
+        // while a writer is between drawing its seqno and leaving its critical section, readers are what is
+        // interesting: half of the time the next step goes to a thread that is about to open a snapshot or read
+        let hot = holder.map(|h| matches!(at[h], "write.drawn" | "write.item" | "write.published")).unwrap_or(false);
+        let readers: Vec<usize> = live.iter().copied().filter(|&i| Some(i) != holder && matches!((at[i], progs[i].get(pc[i])), ("cmd.begin", Some(Cmd::Snap)) | ("cmd.begin", Some(Cmd::Read(..))) | ("cmd.begin", Some(Cmd::ReadTop(..))) | ("snapshot.loaded", _))).collect();
+        let t = if let Some((bt, left)) = burst.filter(|(bt, _)| live.contains(bt) && hot) { burst = if left > 1 { Some((bt, left - 1)) } else { None }; bt }
+            else if hot && !readers.is_empty() && r.chance(1, 2) { *hist.entry("reader-scheduled-inside-apply-window".into()).or_insert(0) += 1; let x = *r.pick(&readers); burst = Some((x, 3)); x }
+            else { burst = None; *r.pick(&live) };
         let cmd = progs[t].get(pc[t]).cloned();
         let point = at[t];
         // while a GC waits for the GC lock, anything that needs that lock would queue up behind it
@@ -360,7 +389,7 @@ fn run_case(seed: u64, lean: &mut Lean, hist: &mut BTreeMap<String, u64>, sample
             ("cmd.begin", Some(Cmd::Rotate(_))) => { expect = "rotate.locked"; }
             ("cmd.begin", Some(Cmd::Ingest(..))) => { expect = "ingest.locked"; }
             ("cmd.begin", Some(Cmd::Close)) => { views[t] = None; }
-            ("cmd.begin", Some(Cmd::Snap)) => { expect = "snapshot.loaded"; if holder.map(|h| at[h] == "write.drawn" || at[h] == "write.item").unwrap_or(false) { *hist.entry("open-inside-apply-window".into()).or_insert(0) += 1; } }
+            ("cmd.begin", Some(Cmd::Snap)) => { expect = "snapshot.loaded"; if holder.map(|h| at[h] == "write.drawn" || at[h] == "write.item").unwrap_or(false) { *hist.entry("open-inside-apply-window".into()).or_insert(0) += 1; } if holder.map(|h| at[h] == "write.published").unwrap_or(false) { *hist.entry("open-between-publish-and-unlock".into()).or_insert(0) += 1; } }
             ("cmd.begin", Some(Cmd::Read(k, key))) => {
                 let out = ctl().m.lock().unwrap()[t].out.last().cloned().unwrap_or_default();
                 if views[t].is_some() {
